@@ -403,5 +403,45 @@ pub mod sm {
 //@ ensures[C13] final(state)@.next_id == old(state)@.next_id
 //@end
 }
+// ======================================================================================
+// src/topics/topic.rs: the handle in front of the topic actor's mailbox (async fns, whole bodies)
+pub mod topic_handle {
+    use super::*;
+//@include prelude/mailbox.rs
+//@item src/topics/errors.rs enum PublishMessagesError drop-derive=thiserror::Error strip-attr=error
+//@item src/topics/topic_actor.rs struct PublishMessagesResponse
+//@item src/topics/topic_actor.rs enum TopicRequest
+    /// TRUSTED (A-STUB): the mailbox field of `Topic` (its other fields are not read by the methods below)
+    pub struct Topic { pub sender: mpsc::Sender<TopicRequest> }
+    impl Topic {
+//@fn src/topics/topic.rs Topic::publish_messages tags=C08
+//@ ret r
+//@ # OK means: exactly one PublishMessages request with the caller's messages, in their order, was put into the mailbox
+//@ ensures[C08] r.is_ok() ==> exists|responder: oneshot::Sender<Result<PublishMessagesResponse, PublishMessagesError>>| #[trigger] mpsc::sent(self.sender, TopicRequest::PublishMessages { messages, responder })
+//@end
+//@fn src/topics/topic.rs Topic::attach_subscription tags=C10
+//@ ret r
+//@ ensures[C10] r.is_ok() ==> exists|responder: oneshot::Sender<Result<(), AttachSubscriptionError>>| #[trigger] mpsc::sent(self.sender, TopicRequest::AttachSubscription { subscription, responder })
+//@end
+//@fn src/topics/topic.rs Topic::remove_subscription tags=C11
+//@ ret r
+//@ ensures[C11] r.is_ok() ==> exists|responder: oneshot::Sender<Result<(), RemoveSubscriptionError>>| #[trigger] mpsc::sent(self.sender, TopicRequest::RemoveSubscription { name, responder })
+//@end
+//@fn src/topics/topic.rs Topic::list_subscriptions tags=C13
+//@ ret r
+//@ ensures[C13] r.is_ok() ==> exists|responder: oneshot::Sender<Result<SubscriptionsPage, ListSubscriptionsError>>| #[trigger] mpsc::sent(self.sender, TopicRequest::ListSubscriptions { paging, responder })
+//@end
+//@fn src/topics/topic.rs Topic::delete tags=C11
+//@ ret r
+//@ ensures[C11] r.is_ok() ==> exists|responder: oneshot::Sender<Result<(), DeleteError>>| #[trigger] mpsc::sent(self.sender, TopicRequest::Delete { responder })
+//@end
+    }
+}
+
 } // verus!
+// A-STUB: awaiting the receiving half of a oneshot channel (outside the verified text: Verus has no model of `poll`)
+impl<T> core::future::Future for topic_handle::oneshot::Receiver<T> {
+    type Output = Result<T, topic_handle::oneshot::RecvError>;
+    fn poll(self: core::pin::Pin<&mut Self>, _cx: &mut core::task::Context<'_>) -> core::task::Poll<Self::Output> { unimplemented!() }
+}
 fn main() {}
